@@ -50,15 +50,16 @@ type C11Claimer struct {
 }
 
 type C11Mutator struct {
-	Kind    string `json:"kind"` // patch | set | delete
-	Keys    []int  `json:"keys"`
-	Ops     []POp  `json:"ops,omitempty"`
-	AltOps  []POp  `json:"alt_ops,omitempty"` // patch: ops of the odd rounds (toggle)
-	Rounds  int    `json:"rounds,omitempty"`  // patch: the request is repeated Rounds times back to back (0/1 = once)
-	Cond    *PCond `json:"cond,omitempty"`
-	ExpSec  int    `json:"exp_sec,omitempty"` // patch: Meta.SetExpiredAt, set: ExpiredAt (seconds relative; 0 = untouched)
-	Body    Body   `json:"body,omitempty"`    // set
-	DelayUs int    `json:"delay_us,omitempty"`
+	Kind     string `json:"kind"` // patch | set | delete
+	Keys     []int  `json:"keys"`
+	Ops      []POp  `json:"ops,omitempty"`
+	AltOps   []POp  `json:"alt_ops,omitempty"` // patch: ops of the odd rounds (toggle)
+	Rounds   int    `json:"rounds,omitempty"`  // patch: the request is repeated Rounds times back to back (0/1 = once)
+	Cond     *PCond `json:"cond,omitempty"`
+	ExpSec   int    `json:"exp_sec,omitempty"`   // patch: Meta.SetExpiredAt, set: ExpiredAt (seconds relative; 0 = untouched)
+	ClearExp bool   `json:"clear_exp,omitempty"` // patch: Meta.ClearExpiredAt — the record never expires from then on
+	Body     Body   `json:"body,omitempty"`      // set
+	DelayUs  int    `json:"delay_us,omitempty"`
 }
 
 type C11Scenario struct {
@@ -506,9 +507,17 @@ func genC11(mode c11Mode, open c11Open) func(t *rapid.T) C11Scenario {
 					}
 				}
 				if expOK && rapid.IntRange(0, 3).Draw(t, "mexp") == 0 {
-					m.ExpSec = genExpSec(t, "mexpv")
+					if rapid.IntRange(0, 2).Draw(t, "mclear") == 0 {
+						// clear the expiry ("never expires"), with or without body ops
+						m.ClearExp = true
+						if rapid.Bool().Draw(t, "mclear-noops") {
+							m.Ops, m.AltOps, m.Rounds = nil, nil, 0
+						}
+					} else {
+						m.ExpSec = genExpSec(t, "mexpv")
+					}
 				}
-				if len(m.Ops) == 0 && m.ExpSec == 0 {
+				if len(m.Ops) == 0 && !m.changesExp() {
 					continue // nothing this mutator may do
 				}
 			case "set":
@@ -572,6 +581,9 @@ type mutRes struct {
 	keyst     []*hydrapb.KeyStatusPair
 	more      []mutRes // further rounds of a repeated patch
 }
+
+// changesExp: the mutator moves or clears ExpiredAt.
+func (m C11Mutator) changesExp() bool { return m.ExpSec != 0 || m.ClearExp }
 
 func (m C11Mutator) roundOps(r int) []POp {
 	if r%2 == 1 && len(m.AltOps) > 0 {
@@ -753,7 +765,9 @@ func runC11Inner(s C11Scenario) pbt.Outcome {
 						ps = append(ps, &hydrapb.TreasurePatch{Key: keyOf(k), Ops: opsProto(m.roundOps(rd)), Condition: m.Cond.proto()})
 					}
 					req := &hydrapb.PatchTreasuresRequest{IslandID: isl, SwampName: sn, Patches: ps}
-					if m.ExpSec != 0 {
+					if m.ClearExp {
+						req.Meta = &hydrapb.PatchMeta{ClearExpiredAt: true}
+					} else if m.ExpSec != 0 {
 						req.Meta = &hydrapb.PatchMeta{SetExpiredAt: nanosToTS(abs(m.ExpSec))}
 					}
 					cur := r
@@ -916,7 +930,7 @@ func judgeC11(s C11Scenario, init map[string]kstate, cres []claimRes, mres []mut
 			}
 		}
 		for _, m := range s.Mutators {
-			if m.ExpSec != 0 || (s.Reload && m.Kind == "delete") {
+			if m.changesExp() || (s.Reload && m.Kind == "delete") {
 				flip = true
 			}
 		}
@@ -928,7 +942,7 @@ func judgeC11(s C11Scenario, init map[string]kstate, cres []claimRes, mres []mut
 	// expiry changers (for the order check on the expiry index)
 	expTouched := map[string]bool{}
 	for _, m := range s.Mutators {
-		if m.ExpSec != 0 {
+		if m.changesExp() {
 			for _, k := range m.Keys {
 				expTouched[keyOf(k)] = true
 			}
@@ -1131,7 +1145,11 @@ func judgeC11(s C11Scenario, init map[string]kstate, cres []claimRes, mres []mut
 					return pbt.Failf("harness", "%s: %d results for %d patches", who, len(r.patch), len(m.Keys))
 				}
 				for j, pr := range r.patch {
-					ev := &event{Actor: who, Call: r.call, Ret: r.ret, Ops: m.roundOps(rd), Cond: m.Cond, NewExp: abs(m.ExpSec)}
+					ev := &event{Actor: who, Call: r.call, Ret: r.ret, Ops: m.roundOps(rd), Cond: m.Cond, NewExp: abs(m.ExpSec), ClearExp: m.ClearExp}
+					if m.ClearExp {
+						ev.NewExp = 0
+						cls["mutator-clears-expiry"] = true
+					}
 					switch pr.Status {
 					case hydrapb.PatchResult_PATCHED:
 						ev.Kind = evMPatched
@@ -1336,7 +1354,7 @@ func removedByClaimOrDelete(evs []*event) bool {
 
 func touchedByOthers(s C11Scenario, cres []claimRes, self int, key string) bool {
 	for _, m := range s.Mutators {
-		if m.ExpSec != 0 {
+		if m.changesExp() {
 			for _, k := range m.Keys {
 				if keyOf(k) == key {
 					return true
